@@ -6,6 +6,7 @@ import (
 	goerrors "errors"
 	"fmt"
 	"math"
+	"sort"
 	"strconv"
 
 	"github.com/smarthome-go/homescript/v3/homescript/errors"
@@ -28,6 +29,15 @@ func (f jsonFloat) MarshalJSON() ([]byte, error) {
 	return strconv.AppendFloat(nil, n, 'f', prec, floatSize), nil
 }
 
+func sortedFieldKeys(fields map[string]*Value) []string {
+	keys := make([]string, 0, len(fields))
+	for key := range fields {
+		keys = append(keys, key)
+	}
+	sort.Strings(keys)
+	return keys
+}
+
 func marshalValue(self Value, span errors.Span, isInner bool, executor Executor) (interface{}, bool, *Interrupt) {
 	switch self := self.(type) {
 	case ValueString:
@@ -41,7 +51,9 @@ func marshalValue(self Value, span errors.Span, isInner bool, executor Executor)
 	case ValueAnyObject:
 		output := make(map[string]interface{}, 0)
 
-		for key, value := range self.FieldsInternal {
+		// in key order: which field's error is reported must not depend on the map's iteration order
+		for _, key := range sortedFieldKeys(self.FieldsInternal) {
+			value := self.FieldsInternal[key]
 			if value == nil {
 				return nil, false, nil
 			}
@@ -58,7 +70,9 @@ func marshalValue(self Value, span errors.Span, isInner bool, executor Executor)
 	case ValueObject:
 		output := make(map[string]interface{}, 0)
 
-		for key, value := range self.FieldsInternal {
+		// in key order: which field's error is reported must not depend on the map's iteration order
+		for _, key := range sortedFieldKeys(self.FieldsInternal) {
+			value := self.FieldsInternal[key]
 			if value == nil {
 				return nil, false, nil
 			}
